@@ -453,6 +453,15 @@ std::string generate_alone(const Op& op) {
   }
   out += "\n" + gen::snapshot(code);
   if (op.a[3] & 1) { out += "log:"; out.append(logger.data(), logger.data_size()); }
+  {
+    // text formatting into plain Strings (little room left in the destination: the formatter goes through its fallback
+    // buffer) and of instructions through the Formatter - each thread obtains the text it obtains alone
+    String text;
+    for (uint32_t k = 0; k < 6; k++) (void)text.append_format("%s:%u:%llx|", k & 1 ? "odd" : "even", k, (unsigned long long)(uint64_t(op.a[1]) * (k + 1)));
+    Operand_ fops[3] = { x86::Gp(x86::r9d), x86::Gp(x86::eax), Imm(int64_t(op.a[2])) };
+    if (t != gen::Target::kA64) (void)Formatter::format_instruction(text, FormatFlags::kNone, nullptr, gen::arch_of(t), BaseInst(x86::Inst::kIdImul), Span<const Operand_>(fops, 3));
+    out += "text:"; out.append(text.data(), text.size());
+  }
   return out;
 }
 
